@@ -231,9 +231,21 @@ pub struct Cx<'a> {
     pub seed: u64,
     pub shard: u64,
     emitted: BTreeSet<String>,
+    nontrivial_seen: u64,
 }
 
+/// Distinct-counting is done on the first `NONTRIVIAL_PER_SHARD` non-trivial cases of a shard
+/// (bounds memory; the count reported is therefore a lower bound).
+const NONTRIVIAL_PER_SHARD: u64 = 1500;
+
 impl<'a> Cx<'a> {
+    pub fn nontrivial(&mut self, sig: &[u8]) {
+        self.nontrivial_seen += 1;
+        self.m.count("nontrivial_cases");
+        if self.nontrivial_seen <= NONTRIVIAL_PER_SHARD {
+            self.m.nontrivial(sig);
+        }
+    }
     pub fn new(m: &'a mut Monitor, prop: Prop, seed: u64, shard: u64) -> Self {
         Cx {
             m,
@@ -241,6 +253,7 @@ impl<'a> Cx<'a> {
             seed,
             shard,
             emitted: BTreeSet::new(),
+            nontrivial_seen: 0,
         }
     }
     /// Report a violation; the (expensive) witness is only built for the first hit of a signature.
@@ -463,7 +476,7 @@ impl World {
                 self.ledger.vault[1] += bi(short);
                 self.lp_tokens = self.lp_tokens.saturating_add(*rep.minted());
                 if cx.is(Prop::C08) {
-                    cx.m.nontrivial(
+                    cx.nontrivial(
                         format!("{TAG}|deposit|{long}|{short}|{}", rep.minted()).as_bytes(),
                     );
                 }
@@ -490,7 +503,7 @@ impl World {
                 self.ledger.vault[1] -= bi(*rep.short_token_output());
                 self.lp_tokens = self.lp_tokens.saturating_sub(amount);
                 if cx.is(Prop::C08) {
-                    cx.m.nontrivial(
+                    cx.nontrivial(
                         format!(
                             "{TAG}|withdraw|{amount}|{}|{}",
                             rep.long_token_output(),
@@ -519,7 +532,7 @@ impl World {
                 self.ledger.vault[tok(long_in)] += bi(amount);
                 self.ledger.vault[tok(!long_in)] -= bi(*rep.token_out_amount());
                 if cx.is(Prop::C08) {
-                    cx.m.nontrivial(
+                    cx.nontrivial(
                         format!("{TAG}|swap|{long_in}|{amount}|{}", rep.token_out_amount())
                             .as_bytes(),
                     );
@@ -678,7 +691,7 @@ impl World {
                     size
                 );
                 if cx.is(Prop::C07) || cx.is(Prop::C08) {
-                    cx.m.nontrivial(sig.as_bytes());
+                    cx.nontrivial(sig.as_bytes());
                 }
                 if cx.m.wants_sample() && self.step % 17 == 3 {
                     cx.m.sample(json!({
@@ -821,7 +834,7 @@ impl World {
                         a.withdraw,
                         a.swap
                     );
-                    cx.m.nontrivial(sig.as_bytes());
+                    cx.nontrivial(sig.as_bytes());
                 }
                 if cx.m.wants_sample() && self.step % 19 == 5 {
                     cx.m.sample(json!({
@@ -909,7 +922,7 @@ impl World {
             }
         }
         self.c09_compare_oracle(cx, &p, site, true, true, real_b);
-        cx.m.nontrivial(
+        cx.nontrivial(
             format!(
                 "{TAG}|{site}|{}|{}|{}|{}|{:?}",
                 p.size_in_usd, p.size_in_tokens, p.collateral_token_amount, p.is_long, prices.index_token_price
@@ -982,7 +995,7 @@ impl World {
             let w = self.witness(json!({"args": a.json(), "position_before": pos_json(pre)}));
             cx.violation("C09:liquidation:position_not_fully_closed", || w);
         }
-        cx.m.nontrivial(
+        cx.nontrivial(
             format!("{TAG}|liq_ok|{}|{}|{}", pre.size_in_usd, pre.collateral_token_amount, pre.is_long)
                 .as_bytes(),
         );
@@ -1003,7 +1016,7 @@ impl World {
                 cx.count("c09_oracle_agree");
             }
         }
-        cx.m.nontrivial(
+        cx.nontrivial(
             format!("{TAG}|liq_rej|{}|{}|{}", pre.size_in_usd, pre.collateral_token_amount, pre.is_long)
                 .as_bytes(),
         );
